@@ -651,6 +651,49 @@ class FnBounds:
                 for j, h in enumerate(facts):
                     if i != j and self._trivially_nonneg(Rg.add(h, -1)):
                         return True
+        # equalities among the facts (g and -g both present, e.g. x == c*Q + x%c) eliminate a symbol from the goal and from the other
+        # facts before the combinations below are tried: one step less to find for each of them
+        reprs = {repr(g) for g in facts}
+        for g in list(facts):
+            if repr(g.scale(-1)) in reprs:
+                tgt_ = [s_ for s_, c_ in g.items() if s_ != 1 and c_ in (1, -1) and s_ in R]
+                if not tgt_:
+                    continue
+                s_ = tgt_[0]
+                # s_ = -(g - c*s_)/c
+                def _elim(L_):
+                    k_ = L_.get(s_, 0)
+                    return L_.add(g.scale(-k_ * g[s_])) if k_ else L_
+                R_e = _elim(R)
+                if R_e is not R and s_ not in R_e:
+                    facts_e = [_elim(h) for h in facts if repr(h) not in (repr(g), repr(g.scale(-1)))]
+                    if self._prove_with(R_e, facts_e, eqs):
+                        return True
+        return self._prove_with(R, facts, eqs, tail_only=True)
+
+    def _prove_with(self, R, facts, eqs, tail_only=False):
+        """the combination search of prove_nonneg on an explicit list of facts (tail_only: the cheap first steps were already tried)"""
+        if not tail_only:
+            if self._trivially_nonneg(R):
+                return True
+            lams0 = sorted({1, 2, 3, 4} | {abs(c_) for c_ in R.values() if 0 < abs(c_) <= 4096})
+            for g in facts:
+                for lam in lams0:
+                    if self._trivially_nonneg(R.add(g, -lam)):
+                        return True
+            for i, g in enumerate(facts):
+                for h in facts[i + 1:]:
+                    if self._trivially_nonneg(R.add(g, -1).add(h, -1)):
+                        return True
+        lams = sorted({1, 2, 3, 4} | {abs(c_) for c_ in R.values() if 0 < abs(c_) <= 4096})
+        mult = [l_ for l_ in lams if l_ > 1]
+        if not tail_only:
+            for i, g in enumerate(facts):
+                for lg in mult:
+                    Rg = R.add(g, -lg)
+                    for j, h in enumerate(facts):
+                        if i != j and self._trivially_nonneg(Rg.add(h, -1)):
+                            return True
         # integer rounding: a fact (or the sum of two) whose symbol terms are all multiples of d says more than its constant shows:
         # 30 - 4k >= 0 means 28 - 4k >= 0 (4k < len and len <= 31 give 4k <= 28, the last whole word below a 32-byte buffer)
         def _rounded(F):
